@@ -74,49 +74,46 @@ IsToFlow(c) == c.f.k = "P" /\ c.t.k = "F" /\ c.t.at = "start"
 IsFromFlow(c) == c.f.k = "F" /\ c.f.at = "end" /\ c.t.k = "P"
 HasRef(c) == c.f.k = "F" \/ c.t.k = "F"
 
-\* connections of a flow that do not involve another flow, stream end replaced by `exit`
-BaseConns(conns, exit) ==
-    LET RECURSIVE G(_)
-        G(i) == IF i > Len(conns) THEN <<>>
-                ELSE LET c == conns[i] IN
-                     (IF IsPP(c) THEN <<[f |-> c.f.n, c |-> c.f.c, t |-> c.t.n]>>
-                      ELSE IF IsPEnd(c) THEN <<[f |-> c.f.n, c |-> c.f.c, t |-> exit]>>
-                      ELSE <<>>) \o G(i + 1)
-    IN G(1)
-
-BaseEntry(conns) ==
-    LET RECURSIVE G(_)
-        G(i) == IF i > Len(conns) THEN <<>>
-                ELSE (IF IsEntry(conns[i]) THEN <<conns[i].t.n>> ELSE <<>>) \o G(i + 1)
-    IN G(1)
-
 RefConns(cfg, name, dir) == IF HasFlow(cfg, name) THEN Conns(FlowOf(cfg, name), dir) ELSE <<>>
 
-\* logical connections <<[f, c, t]>> (t = processor key or "END") of flow fl in direction dir, references inlined
-LG(cfg, fl, dir) ==
-    LET conns == Conns(fl, dir)
-        RECURSIVE G(_)
-        G(i) == IF i > Len(conns) THEN <<>>
-                ELSE LET c == conns[i] IN
-                     (IF IsPP(c) THEN <<[f |-> c.f.n, c |-> c.f.c, t |-> c.t.n]>>
-                      ELSE IF IsPEnd(c) THEN <<[f |-> c.f.n, c |-> c.f.c, t |-> "END"]>>
-                      ELSE IF IsToFlow(c) THEN
-                          LET b == RefConns(cfg, c.t.n, dir) e == BaseEntry(b) IN
-                          (IF Len(e) = 1 THEN <<[f |-> c.f.n, c |-> c.f.c, t |-> e[1]]>> ELSE <<>>) \o BaseConns(b, "END")
-                      ELSE IF IsFromFlow(c) THEN BaseConns(RefConns(cfg, c.f.n, dir), c.t.n)
-                      ELSE <<>>) \o G(i + 1)
-    IN G(1)
+\* References are inlined recursively (a referenced flow may itself reference a third flow; RefDepth bounds the nesting):
+\*   XConns(cfg, name, dir, exit, fuel)  logical connections <<[f, c, t]>> of flow `name`, its connections to the stream end
+\*                                       leading to `exit` (a processor key or "END")
+\*   XEntry(cfg, name, dir, fuel)        its entry points
+\* `p -c-> flow B at start`: p -c-> entry of B, nothing follows B there (B's stream end is the stream end);
+\* `flow B at end -> p`: B's entry is the entry, B's stream end leads to p.
+RefDepth == 3
+RECURSIVE XConns(_, _, _, _, _), XEntry(_, _, _, _)
+XEntry(cfg, name, dir, fuel) ==
+    IF fuel = 0 THEN <<>>
+    ELSE LET conns == RefConns(cfg, name, dir)
+             RECURSIVE G(_)
+             G(i) == IF i > Len(conns) THEN <<>>
+                     ELSE LET c == conns[i] IN
+                          (IF IsEntry(c) THEN <<c.t.n>>
+                           ELSE IF IsFromFlow(c) THEN XEntry(cfg, c.f.n, dir, fuel - 1)
+                           ELSE <<>>) \o G(i + 1)
+         IN G(1)
 
-\* entry points (targets of the stream-start connection), references inlined
-Entry(cfg, fl, dir) ==
-    LET conns == Conns(fl, dir)
-        RECURSIVE G(_)
-        G(i) == IF i > Len(conns) THEN <<>>
-                ELSE LET c == conns[i] IN
-                     (IF IsEntry(c) THEN <<c.t.n>>
-                      ELSE IF IsFromFlow(c) THEN BaseEntry(RefConns(cfg, c.f.n, dir))
-                      ELSE <<>>) \o G(i + 1)
-    IN G(1)
+XConns(cfg, name, dir, exit, fuel) ==
+    IF fuel = 0 THEN <<>>
+    ELSE LET conns == RefConns(cfg, name, dir)
+             RECURSIVE G(_)
+             G(i) == IF i > Len(conns) THEN <<>>
+                     ELSE LET c == conns[i] IN
+                          (IF IsPP(c) THEN <<[f |-> c.f.n, c |-> c.f.c, t |-> c.t.n]>>
+                           ELSE IF IsPEnd(c) THEN <<[f |-> c.f.n, c |-> c.f.c, t |-> exit]>>
+                           ELSE IF IsToFlow(c) THEN
+                               LET e == XEntry(cfg, c.t.n, dir, fuel - 1) IN
+                               (IF Len(e) = 1 THEN <<[f |-> c.f.n, c |-> c.f.c, t |-> e[1]]>> ELSE <<>>)
+                               \o XConns(cfg, c.t.n, dir, "END", fuel - 1)
+                           ELSE IF IsFromFlow(c) THEN XConns(cfg, c.f.n, dir, c.t.n, fuel - 1)
+                           ELSE <<>>) \o G(i + 1)
+         IN G(1)
+
+\* logical connections / entry points of flow fl in direction dir, references inlined
+LG(cfg, fl, dir) == XConns(cfg, fl.name, dir, "END", RefDepth)
+Entry(cfg, fl, dir) == XEntry(cfg, fl.name, dir, RefDepth)
 
 Targets(lg, n, out) ==
     LET RECURSIVE G(_)
@@ -126,32 +123,42 @@ Targets(lg, n, out) ==
 
 NoDup(s) == \A i, j \in 1..Len(s) : s[i] = s[j] => i = j
 
-\* the configuration has one reading as a graph for the flow `name`
+\* flows referenced by flow n (either direction, either side)
+RefsOf(cfg, n) ==
+    IF ~HasFlow(cfg, n) THEN {}
+    ELSE LET fl == FlowOf(cfg, n) IN
+         UNION {{(IF Conns(fl, d)[i].f.k = "F" THEN Conns(fl, d)[i].f.n ELSE Conns(fl, d)[i].t.n) :
+                    i \in {j \in 1..Len(Conns(fl, d)) : HasRef(Conns(fl, d)[j])}} : d \in {"req", "res"}}
+
+\* one flow on its own: unique name, its connections mention its own processors, at most one well-shaped reference per
+\* direction, and the referenced flow has exactly one entry point in that direction
+FlowOK(cfg, n) ==
+    /\ Cardinality(FlowIdx(cfg, n)) = 1
+    /\ LET fl == FlowOf(cfg, n) IN
+       \A dir \in {"req", "res"} :
+          LET conns == Conns(fl, dir) IN
+          /\ Cardinality({i \in 1..Len(conns) : HasRef(conns[i])}) <= 1
+          /\ \A i \in 1..Len(conns) :
+                LET c == conns[i] IN
+                /\ c.f.k = "P" => HasProc(fl, c.f.n)
+                /\ c.t.k = "P" => HasProc(fl, c.t.n)
+                /\ HasRef(c) => (IsToFlow(c) \/ IsFromFlow(c))
+                /\ HasRef(c) => Len(XEntry(cfg, IF c.f.k = "F" THEN c.f.n ELSE c.t.n, dir, RefDepth - 1)) = 1
+
+\* the configuration has one reading as a graph for the flow `name`: references nest at most two deep
+\* (name -> b -> c) and never come back to a flow of the chain
 WellFormed(cfg, name) ==
     /\ HasFlow(cfg, name)
-    /\ Cardinality(FlowIdx(cfg, name)) = 1
     /\ \A i, j \in 1..Len(cfg.flows) : i # j => Keys(cfg.flows[i]) \cap Keys(cfg.flows[j]) = {}
-    /\ LET fl == FlowOf(cfg, name) IN
-       \A dir \in {"req", "res"} :
-          LET conns == Conns(fl, dir)
-              refs == {i \in 1..Len(conns) : HasRef(conns[i])}
-          IN /\ Len(Entry(cfg, fl, dir)) <= 1
-             /\ NoDup(LG(cfg, fl, dir))
-             /\ Cardinality(refs) <= 1
-             /\ \A i \in 1..Len(conns) :
-                   LET c == conns[i] IN
-                   /\ c.f.k = "P" => HasProc(fl, c.f.n)
-                   /\ c.t.k = "P" => HasProc(fl, c.t.n)
-                   /\ HasRef(c) => (IsToFlow(c) \/ IsFromFlow(c))
-             /\ \A i \in refs :
-                   LET b == IF conns[i].f.k = "F" THEN conns[i].f.n ELSE conns[i].t.n IN
-                   /\ b # name /\ Cardinality(FlowIdx(cfg, b)) = 1
-                   /\ \A d2 \in {"req", "res"} : \A j \in 1..Len(RefConns(cfg, b, d2)) :
-                          LET c2 == RefConns(cfg, b, d2)[j] IN
-                          /\ ~HasRef(c2)
-                          /\ c2.f.k = "P" => HasProc(FlowOf(cfg, b), c2.f.n)
-                          /\ c2.t.k = "P" => HasProc(FlowOf(cfg, b), c2.t.n)
-                   /\ Len(BaseEntry(RefConns(cfg, b, dir))) = 1
+    /\ LET r1 == RefsOf(cfg, name)
+           r2 == UNION {RefsOf(cfg, b) : b \in r1}
+       IN /\ name \notin r1 \cup r2
+          /\ \A b \in r1 : b \notin RefsOf(cfg, b)
+          /\ \A c \in r2 : RefsOf(cfg, c) = {}
+          /\ \A n \in {name} \cup r1 \cup r2 : HasFlow(cfg, n) /\ FlowOK(cfg, n)
+    /\ \A dir \in {"req", "res"} :
+          /\ Len(Entry(cfg, FlowOf(cfg, name), dir)) <= 1
+          /\ NoDup(LG(cfg, FlowOf(cfg, name), dir))
 
 \* ------------------------------------------------------------- the walk acceptor
 \* ctx = [cfg, lg, dir, fname, seq];  result = [st |-> "ok"|"cut"|"fail", i |-> next index, ans |-> answering Gen or ""]
@@ -247,6 +254,36 @@ TxVerdict(cfg, fname, dir, seq, sysreq, outcome) ==
     ELSE IF c # "ok" THEN c
     ELSE IF ~WellFormed(cfg, fname) THEN "ok"
     ELSE UserVerdict(cfg, fname, dir, UserPart(seq), outcome)
+
+\* several user flows selected for one transaction (e.g. the flow of a host and the flow of one endpoint): each of them
+\* follows its own connections.  The order in which the flows run is not part of the property.  When a flow answers the
+\* request no other request-side processor runs afterwards; the answering flow continues from the answering processor,
+\* any other flow that takes part in the response side walks its own response path from its own entry point.
+MultiUserVerdict(cfg, fnames, dir, seq, outcome) ==
+    LET Mine(f) == SelectSeq(seq, LAMBDA e : e.flow = f)
+        Answers(e) == e.dir = "req" /\ KindAny(cfg, e.key) = "Gen"
+        answerers == {fnames[k] : k \in {j \in 1..Len(fnames) : \E i \in 1..Len(seq) : seq[i].flow = fnames[j] /\ Answers(seq[i])}}
+        V(f) == LET m == Mine(f)
+                    rq == SelectSeq(m, LAMBDA e : e.dir = "req")
+                    rs == SelectSeq(m, LAMBDA e : e.dir = "res")
+                IN IF ~WellFormed(cfg, f) THEN "ok"
+                   ELSE IF dir = "res" THEN UserVerdict(cfg, f, "res", m, outcome)
+                   ELSE IF f \in answerers THEN UserVerdict(cfg, f, "req", m, outcome)
+                   ELSE IF answerers # {} THEN
+                       (IF Len(rq) > 0 /\ UserVerdict(cfg, f, "req", rq, outcome) # "ok" THEN UserVerdict(cfg, f, "req", rq, outcome)
+                        ELSE IF Len(rs) > 0 THEN UserVerdict(cfg, f, "res", rs, outcome) ELSE "ok")
+                   ELSE UserVerdict(cfg, f, "req", m, outcome)
+        bad == {k \in 1..Len(fnames) : V(fnames[k]) # "ok"}
+    IN IF \E i, j \in 1..Len(seq) : i < j /\ Answers(seq[i]) /\ seq[j].dir = "req" THEN "request-side-continues-after-answer"
+       ELSE IF bad = {} THEN "ok"
+       ELSE V(fnames[CHOOSE k \in bad : \A k2 \in bad : k <= k2])
+
+MultiTxVerdict(cfg, fnames, dir, seq, sysreq, outcome) ==
+    LET s == SysVerdict(seq, sysreq)
+        c == SysComplete(cfg, fnames[1], dir, seq, outcome) IN
+    IF s # "ok" THEN s
+    ELSE IF c # "ok" THEN c
+    ELSE MultiUserVerdict(cfg, fnames, dir, UserPart(seq), outcome)
 
 \* ------------------------------------------------------------------------- C05
 LoadVerdict(outcome, init) ==
